@@ -79,4 +79,17 @@ Definition strength_ok (kd : keydata) : Prop :=
   /\ (is_url kd url_rsa_pss_pub -> rsa_strong fs)
   /\ (is_url kd url_ecdsa_pub -> ecdsa_params_strong (get_sub 2 fs))
   /\ (is_url kd url_ecdsa_priv -> ecdsa_params_strong (get_sub 2 (get_sub 2 fs)))
-  /\ (is_url kd url_xaes_gcm -> aes_size_ok (blen (get_len 3 fs))).
+  /\ (is_url kd url_xaes_gcm -> aes_size_ok (blen (get_len 3 fs)))
+  (* private keys: the public part they embed (public_key = 2) *)
+  /\ (is_url kd url_rsa_pkcs1_priv -> rsa_strong (get_sub 2 fs))
+  /\ (is_url kd url_rsa_pss_priv -> rsa_strong (get_sub 2 fs))
+  (* JWT keys: n = 3, e = 4 as in the plain RSA public keys; the HMAC key *)
+  /\ (is_url kd url_jwt_rsa_pkcs1_pub -> rsa_strong fs)
+  /\ (is_url kd url_jwt_rsa_pss_pub -> rsa_strong fs)
+  /\ (is_url kd url_jwt_rsa_pkcs1_priv -> rsa_strong (get_sub 2 fs))
+  /\ (is_url kd url_jwt_rsa_pss_priv -> rsa_strong (get_sub 2 fs))
+  /\ (is_url kd url_jwt_hmac -> 16 <= blen (get_len 3 fs))
+  (* streaming AEAD: the AES key derived for each segment; the HMAC tag *)
+  /\ (is_url kd url_stream_gcm_hkdf -> aes_size_ok (get_u32 2 (get_sub 2 fs)))
+  /\ (is_url kd url_stream_ctr_hmac ->
+        aes_size_ok (get_u32 2 (get_sub 2 fs)) /\ 10 <= get_u32 2 (get_sub 4 (get_sub 2 fs))).
